@@ -393,3 +393,212 @@ def return_temp(sources: SourceSet) -> SourceSet:
 
 
 VARIANTS.update({"guard-clauses": guard_clauses, "split-and": split_and, "return-temp": return_temp})
+
+
+class _CapturesToAliases(ast.NodeTransformer):
+    """``case K(x=a, y=b): ...``  ->  ``case K(): a = subject.x; b = subject.y; ...`` for plain captures."""
+
+    def visit_Match(self, node: ast.Match):
+        self.generic_visit(node)
+        s = node.subject
+        e = s
+        while isinstance(e, ast.Attribute):
+            e = e.value
+        if not isinstance(e, ast.Name):
+            return node
+        for c in node.cases:
+            pat = c.pattern
+            if not isinstance(pat, ast.MatchClass) or pat.patterns:
+                continue
+            guard_names = {n.id for n in ast.walk(c.guard) if isinstance(n, ast.Name)} if c.guard is not None else set()
+            keep_a, keep_p, pre = [], [], []
+            for a, q in zip(pat.kwd_attrs, pat.kwd_patterns):
+                if isinstance(q, ast.MatchAs) and q.pattern is None and q.name and q.name not in guard_names:
+                    pre.append(ast.Assign(targets=[ast.Name(q.name, ast.Store())], value=ast.Attribute(value=s, attr=a, ctx=ast.Load()), lineno=c.body[0].lineno))
+                else:
+                    keep_a.append(a)
+                    keep_p.append(q)
+            if pre:
+                pat.kwd_attrs, pat.kwd_patterns = keep_a, keep_p
+                c.body = pre + c.body
+        return node
+
+
+def captures_to_aliases(sources: SourceSet) -> SourceSet:
+    out = {}
+    for rel, text in sources.files.items():
+        tree = _CapturesToAliases().visit(ast.parse(text))
+        ast.fix_missing_locations(tree)
+        out[rel] = ast.unparse(tree) + "\n"
+    return SourceSet(out, sources.root)
+
+
+class _ComprehensionToLoop(ast.NodeTransformer):
+    """``x = [e for t in it if c]`` / ``{k: v for ...}`` / ``{e for ...}``  ->  empty container + accumulator loop."""
+
+    def visit_FunctionDef(self, fn: ast.FunctionDef):
+        self.generic_visit(fn)
+        all_names: dict[str, int] = {}
+        for n in ast.walk(fn):
+            if isinstance(n, ast.Name):
+                all_names[n.id] = all_names.get(n.id, 0) + 1
+            elif isinstance(n, ast.arg):
+                all_names[n.arg] = all_names.get(n.arg, 0) + 1
+
+        def conv(stmts):
+            out = []
+            for s in stmts:
+                v = s.value if isinstance(s, ast.Assign) and len(s.targets) == 1 and isinstance(s.targets[0], ast.Name) else None
+                if isinstance(v, (ast.ListComp, ast.SetComp, ast.DictComp)) and len(v.generators) == 1 and len(v.generators[0].ifs) <= 1 and not v.generators[0].is_async:
+                    g = v.generators[0]
+                    inner = {n.id for n in ast.walk(g.target) if isinstance(n, ast.Name)}
+                    uses_inside = {}
+                    for n in ast.walk(v):
+                        if isinstance(n, ast.Name) and n.id in inner:
+                            uses_inside[n.id] = uses_inside.get(n.id, 0) + 1
+                    acc = s.targets[0].id
+                    nested_scope = any(isinstance(n, (ast.Lambda, ast.ListComp, ast.SetComp, ast.DictComp, ast.GeneratorExp)) and n is not v for n in ast.walk(v))
+                    if all(all_names.get(nm, 0) == uses_inside.get(nm, 0) for nm in inner) and acc not in {n.id for n in ast.walk(v) if isinstance(n, ast.Name)} and not nested_scope:
+                        if isinstance(v, ast.DictComp):
+                            init = ast.Dict(keys=[], values=[])
+                            step = ast.Assign(targets=[ast.Subscript(value=ast.Name(acc, ast.Load()), slice=v.key, ctx=ast.Store())], value=v.value, lineno=s.lineno)
+                        elif isinstance(v, ast.ListComp):
+                            init = ast.List(elts=[], ctx=ast.Load())
+                            step = ast.Expr(value=ast.Call(func=ast.Attribute(value=ast.Name(acc, ast.Load()), attr="append", ctx=ast.Load()), args=[v.elt], keywords=[]))
+                        else:
+                            init = ast.Call(func=ast.Name("set", ast.Load()), args=[], keywords=[])
+                            step = ast.Expr(value=ast.Call(func=ast.Attribute(value=ast.Name(acc, ast.Load()), attr="add", ctx=ast.Load()), args=[v.elt], keywords=[]))
+                        body = [step]
+                        if g.ifs:
+                            body = [ast.If(test=g.ifs[0], body=[step], orelse=[])]
+                        out.append(ast.copy_location(ast.Assign(targets=[ast.Name(acc, ast.Store())], value=init, lineno=s.lineno), s))
+                        out.append(ast.copy_location(ast.For(target=g.target, iter=g.iter, body=body, orelse=[], lineno=s.lineno), s))
+                        continue
+                out.append(s)
+            return out
+
+        def walk(node):
+            for field in ("body", "orelse"):
+                v = getattr(node, field, None)
+                if isinstance(v, list) and v and isinstance(v[0], ast.stmt):
+                    for x in v:
+                        if not isinstance(x, (ast.FunctionDef, ast.ClassDef)):
+                            walk(x)
+                    setattr(node, field, conv(v))
+            if isinstance(node, ast.Match):
+                for c in node.cases:
+                    for x in c.body:
+                        walk(x)
+                    c.body = conv(c.body)
+
+        walk(fn)
+        return fn
+
+
+def comprehension_to_loop(sources: SourceSet) -> SourceSet:
+    out = {}
+    for rel, text in sources.files.items():
+        tree = _ComprehensionToLoop().visit(ast.parse(text))
+        ast.fix_missing_locations(tree)
+        out[rel] = ast.unparse(tree) + "\n"
+    return SourceSet(out, sources.root)
+
+
+def _closed(stmts) -> bool:
+    if not stmts:
+        return False
+    last = stmts[-1]
+    if isinstance(last, (ast.Return, ast.Raise)):
+        return True
+    if isinstance(last, ast.If):
+        return bool(last.orelse) and _closed(last.body) and _closed(last.orelse)
+    if isinstance(last, ast.Match):
+        return any(c.guard is None and isinstance(c.pattern, ast.MatchAs) and c.pattern.pattern is None for c in last.cases) and all(_closed(c.body) for c in last.cases)
+    return False
+
+
+class _ExtractArms(ast.NodeTransformer):
+    """Every closed ``case`` arm (>= 3 statements) of a method becomes a private method of its own ("extract method").
+    Only names that are definitely assigned before the arm (parameters, captures of the enclosing patterns, straight-line
+    assignments of enclosing blocks) are passed; everything else the arm reads it must bind itself."""
+
+    def visit_ClassDef(self, cls: ast.ClassDef):
+        new_methods: list[ast.FunctionDef] = []
+        counter = [0]
+
+        def captures(pat) -> set[str]:
+            return {n.name for n in ast.walk(pat) if isinstance(n, (ast.MatchAs, ast.MatchStar)) and n.name}
+
+        def walrus(e) -> set[str]:
+            return {n.target.id for n in ast.walk(e) if isinstance(n, ast.NamedExpr) and isinstance(n.target, ast.Name)} if e is not None else set()
+
+        def process(stmts, definite: set[str], fn, recv, deco):
+            definite = set(definite)
+            for s in stmts:
+                if isinstance(s, ast.Match):
+                    for c in s.cases:
+                        inner = definite | captures(c.pattern) | walrus(c.guard) | walrus(s.subject)
+                        process(c.body, inner, fn, recv, deco)
+                        if len(c.body) < 3 or not _closed(c.body):
+                            continue
+                        if any(isinstance(n, ast.Call) and isinstance(n.func, ast.Name) and n.func.id == "super" for x in c.body for n in ast.walk(x)):
+                            continue
+                        if any(isinstance(n, (ast.Lambda, ast.ListComp, ast.SetComp, ast.DictComp, ast.GeneratorExp)) for x in c.body for n in ast.walk(x)):
+                            continue  # closures over arm locals would need care
+                        loaded = []
+                        for x in c.body:
+                            for n in ast.walk(x):
+                                if isinstance(n, ast.Name) and n.id in inner and n.id != recv and n.id not in loaded:
+                                    loaded.append(n.id)
+                        counter[0] += 1
+                        name = f"_{fn.name.strip('_')}_arm{counter[0]}"
+                        helper = ast.FunctionDef(
+                            name=name,
+                            args=ast.arguments(posonlyargs=[], args=[ast.arg(recv)] + [ast.arg(x) for x in loaded], kwonlyargs=[], kw_defaults=[], defaults=[]),
+                            body=c.body,
+                            decorator_list=[ast.Name("classmethod", ast.Load())] if "classmethod" in deco else [],
+                            lineno=c.body[0].lineno,
+                            type_params=[],
+                        )
+                        new_methods.append(helper)
+                        call = ast.Call(func=ast.Attribute(value=ast.Name(recv, ast.Load()), attr=name, ctx=ast.Load()), args=[ast.Name(x, ast.Load()) for x in loaded], keywords=[])
+                        c.body = [ast.copy_location(ast.Return(value=call), c.body[0])]
+                elif isinstance(s, ast.If):
+                    process(s.body, definite | walrus(s.test), fn, recv, deco)
+                    process(s.orelse, definite | walrus(s.test), fn, recv, deco)
+                    definite |= walrus(s.test)
+                elif isinstance(s, (ast.For, ast.While, ast.With, ast.Try)):
+                    pass  # arms inside loops are left alone
+                else:
+                    if isinstance(s, ast.Assign):
+                        for t in s.targets:
+                            definite |= {n.id for n in ast.walk(t) if isinstance(n, ast.Name) and isinstance(n.ctx, ast.Store)}
+                    elif isinstance(s, ast.AnnAssign) and s.value is not None and isinstance(s.target, ast.Name):
+                        definite.add(s.target.id)
+                    definite |= walrus(s)
+
+        for fn in list(cls.body):
+            if not isinstance(fn, ast.FunctionDef) or not fn.args.args:
+                continue
+            deco = {d.id for d in fn.decorator_list if isinstance(d, ast.Name)}
+            if deco - {"classmethod", "final"} or any(isinstance(n, (ast.Yield, ast.YieldFrom, ast.Nonlocal, ast.Global)) for n in ast.walk(fn)):
+                continue
+            if any(isinstance(n, (ast.FunctionDef, ast.ClassDef)) and n is not fn for n in ast.walk(fn)):
+                continue
+            recv = fn.args.args[0].arg
+            params = {a.arg for a in fn.args.args + fn.args.kwonlyargs}
+            process(fn.body, params, fn, recv, deco)
+        cls.body.extend(new_methods)
+        return cls
+
+
+def extract_arms(sources: SourceSet) -> SourceSet:
+    out = {}
+    for rel, text in sources.files.items():
+        tree = _ExtractArms().visit(ast.parse(text))
+        ast.fix_missing_locations(tree)
+        out[rel] = ast.unparse(tree) + "\n"
+    return SourceSet(out, sources.root)
+
+
+VARIANTS.update({"captures-to-aliases": captures_to_aliases, "comprehension-to-loop": comprehension_to_loop, "extract-arms": extract_arms})
